@@ -235,7 +235,8 @@ def w_mmb(case):
             drive = 2 * slot
             present = status[slot] in (0x00, 0x0F)
             if case.get('mode') == 'status':
-                for cmd in (['cat', str(drive)], ['dump-sector', str(drive), '0', '5'], ['type', '--binary', ':%d.$.ALL' % drive]):
+                for cmd in (['cat', str(drive)], ['dump-sector', str(drive), '0', '5'], ['dump-sector', str(drive), '0', '0'],
+                            ['dump-sector', str(drive), '79', '9'], ['type', '--binary', ':%d.$.ALL' % drive]):
                     r = dfsrun.dfs(BIN, ['--file', 'img.mmb'] + cmd, d)
                     res['n'] += 1
                     if present:
